@@ -253,7 +253,7 @@ def main(argv=None):
         fn_rows.append(dict(function=r['qualname'], mode=r.get('mode'), status=r['status'],
                             obligations=len(obs), discharged=sum(1 for o in obs if o['verdict'] == 'proved'),
                             loops_with_invariants=len(c.loops), paths=r.get('paths'),
-                            source=f"{os.path.relpath(r.get('source_path') or '', REPO)}:"
+                            source=f"{os.path.relpath(r.get('source_path') or REPO, REPO)}:"
                                    f"{r.get('source_lines', (0, 0))[0]}-{r.get('source_lines', (0, 0))[1]}",
                             gen_time_s=round(r.get('gen_time_s', 0), 3),
                             solve_time_s=round(r.get('solve_time_s', 0), 3)))
